@@ -383,7 +383,11 @@ func runC17Bubble(dir string, c BackupCase, info *h.Info) *h.Violation {
 		if lastOKSample >= 0 {
 			justified := false
 			for _, w := range writeTimes {
-				if w > lastOKSample && w <= a.at {
+				// (an upload is not an instant: a write at the very moment of the last successful upload
+				// may have come after that upload had looked at the write generation - a task that is woken
+				// BY the write uploads at that same virtual instant, and a second write of the same instant
+				// rightly leads to one more upload)
+				if w >= lastOKSample && w <= a.at {
 					justified = true
 				}
 			}
